@@ -503,10 +503,18 @@ func TestFanOut(t *testing.T) {
 		}
 		n := rapid.IntRange(1, 5).Draw(t, "messages")
 		sent := map[string][]lib.Snap{}
+		prevUUID := ""
 		canon := fmt.Sprintf("fanout|%d|%d|", nt, ns)
 		for i := 0; i < n; i++ {
 			s := lib.GenSnap().Draw(t, "msg")
+			// UUIDs are not unique in general (they are "only used for debugging"): a message may carry the UUID of
+			// the one before it; the index travels in the payload so that the two stay distinguishable for the oracle
 			s.UUID = fmt.Sprintf("m%d-%s", i, s.UUID)
+			if i > 0 && rapid.IntRange(0, 2).Draw(t, "sameUUIDAsThePreviousMessage") == 0 {
+				s.UUID = prevUUID
+			}
+			prevUUID = s.UUID
+			s.Payload = append([]byte(fmt.Sprintf("#%d:", i)), s.Payload...)
 			tp := topics[rapid.IntRange(0, nt-1).Draw(t, "onTopic")]
 			d, ok := srcByTopic[tp].Emit(s.Msg(), "", 0, lib.Live)
 			if !ok {
